@@ -784,11 +784,18 @@ impl Transformer {
         OutputList::from([OutputEvent::Start(new_svg)].as_slice()).write_to(writer)
     }
 
-    fn write_auto_styles(&self, events: &mut OutputList, writer: &mut dyn Write) -> Result<()> {
+    fn write_auto_styles(
+        &self,
+        events: &mut OutputList,
+        root_classes: &[String],
+        writer: &mut dyn Write,
+    ) -> Result<()> {
         // Collect the set of elements and classes so relevant styles can be
         // automatically added.
         let mut element_set = HashSet::new();
         let mut class_set = HashSet::new();
+        // (the root element has been written already; its classes count as well)
+        class_set.extend(root_classes.iter().cloned());
         for output_ev in events.iter() {
             match output_ev {
                 OutputEvent::Start(e) | OutputEvent::Empty(e) => {
@@ -866,9 +873,13 @@ impl Transformer {
 
         let mut has_svg_element = false;
         let mut root_was_empty = false;
+        let mut root_classes = Vec::new();
         if let (pre_svg, Some(first_svg), remain) = events.partition("svg") {
             pre_svg.write_to(writer)?;
             root_was_empty = matches!(first_svg, OutputEvent::Empty(_));
+            if let OutputEvent::Start(root) | OutputEvent::Empty(root) = &first_svg {
+                root_classes = root.get_classes();
+            }
             self.write_root_svg(first_svg, bbox, writer)?;
             events = remain;
             has_svg_element = true;
@@ -896,7 +907,7 @@ impl Transformer {
         // Default behaviour: include auto defs/styles iff we have an SVG element,
         // i.e. this is a full SVG document rather than a fragment.
         if has_svg_element && self.context.config.add_auto_styles {
-            self.write_auto_styles(&mut events, writer)?;
+            self.write_auto_styles(&mut events, &root_classes, writer)?;
         }
 
         if root_was_empty {
